@@ -134,11 +134,12 @@ def _sched(res, tier, pi, only=None):
         pols = ["rev"] if n == 2 else (["rev", "rot1", "rot2"] if n <= 4 else ["rev", "rot1", "rot2", "rot3", "swap01"])
         for pol in pols:
             deviations.append({site: pol} if True else None)
-            if tier == "thorough":
-                for k in range(min(sites[site], 40)):
+            if tier == "thorough" and pol == "rev":
+                # single-occurrence deviations (reversal only): the first 20 dynamic occurrences of each site
+                for k in range(min(sites[site], 20)):
                     deviations.append({(site, k): pol})
-                if sites[site] > 40:
-                    res.caps.append("site %s: %d occurrences, first 40 deviated individually" % (site, sites[site]))
+                if sites[site] > 20:
+                    res.extra["sites_with_more_than_20_occurrences"] += 1
     if tier == "thorough":
         ss = sorted(sites, key=str)
         for a, b in itertools.combinations(ss, 2):
